@@ -131,6 +131,166 @@ Example C07_outcomes_meaning : forall st0 st' m d,
    entry st' (m_tmp m) = None /\ True).
 Proof. intros. cbn [outcomes hd tl]. tauto. Qed.
 
+(* ---------------------------------------------------------------- any granularity, failing commits
+   The same statements for the general domain (DefragGranProofs.v): granularity handler gh (HFake
+   or HVam = vam's blockBufferImageGranularity), any power-of-two bufferImageGranularity gg, and a
+   block list that may refuse any commit (planner parameterised by Env / att, see Props/C15.v).
+   WFg gh gg: as WF, plus every block has granularity gg (handler gh when 1 < gg) and the table's
+   sizes are fixed points of RoundUpAllocRequest for their kind.  WFp gg (vam's handler, kinds
+   1..5) carries in addition GranTlsf.GInv for every block: the page table is exact.
+     - C07_no_conflicting_kinds_share_a_page / C07_history_pages: in every block, at every moment of
+       every history (user operations, passes with refused commits, completions with any decisions),
+       no bufferImageGranularity page holds bytes of two live regions of conflicting kinds - the
+       planner's temporaries included.
+     - a refused commit leaves nothing behind: C07_refused_commits_leave_nothing (the table grows by
+       exactly the committed attempts, all live regions of the blocks are the old ones plus the
+       committed destinations). *)
+From Arsenal Require DefragGranProofs.
+Module General.
+Import Gran GranInv GranTlsf DefragGranProofs.
+
+Theorem C07_sources_are_user_allocs_once_gran : forall gh gg Env att st c mb ma (env : Env),
+  WFg gh gg st -> 0 <= ma -> 0 <= mb -> c_moves c = [] ->
+  let cs := fst (res_f (collect_moves_f Env att st c (pass_init mb ma) env)) in
+  (forall m, In m (cs_moves cs) ->
+     exists es, entry st (m_src m) = Some es /\ entry (cs_st cs) (m_src m) = Some es /\ u_temp es = false /\
+                u_blk es = m_srcblk m /\ u_off es = m_srcoff m /\ u_size es = m_size m) /\
+  NoDup (map m_src (cs_moves cs)) /\ NoDup (map m_tmp (cs_moves cs)) /\
+  (forall m m', In m (cs_moves cs) -> In m' (cs_moves cs) -> m_src m <> m_tmp m').
+Proof. intros gh gg. exact (sources_are_user_allocs_once_f gh gg QT KT QT_step). Qed.
+Print Assumptions C07_sources_are_user_allocs_once_gran.
+
+Theorem C07_collect_reserves_gran : forall gh gg Env att st c mb ma (env : Env),
+  WFg gh gg st -> 0 <= ma -> 0 <= mb -> c_moves c = [] ->
+  let cs := fst (res_f (collect_moves_f Env att st c (pass_init mb ma) env)) in
+  WFg gh gg (cs_st cs) /\ ext st (cs_st cs) /\ Forall (reserved (cs_st cs)) (cs_moves cs).
+Proof. intros gh gg. exact (collect_reserves_f gh gg QT KT QT_step). Qed.
+Print Assumptions C07_collect_reserves_gran.
+
+(* any running pass state: the new moves are the committed attempts; the state is well formed,
+   extends the old one, and its live regions are the old ones plus one per committed attempt
+   (CReg: table, temporaries, live lists) - a refused attempt leaves no temporary, no region *)
+Theorem C07_refused_commits_leave_nothing : forall gh gg Env att st c p (env : Env),
+  WFg gh gg st -> pass_running p -> 0 <= c_immovable c ->
+  let X := collect_moves_f Env att st c p env in
+  let cs := fst (res_f X) in
+  let new := log_moves (log_f X) in
+  cs_moves cs = c_moves c ++ new /\
+  WFg gh gg (cs_st cs) /\ ext st (cs_st cs) /\
+  CReg st (cs_st cs) new /\
+  Forall (move_ok st (cs_st cs) (indexed st)) new /\
+  Forall (fun a => In (at_dst a) (map fst (d_blocks st))) (log_f X).
+Proof. intros gh gg. exact (collect_moves_f_regions gh gg QT KT QT_step). Qed.
+Print Assumptions C07_refused_commits_leave_nothing.
+
+Theorem C07_both_ends_reserved_gran : forall gh gg st m,
+  WFg gh gg st -> reserved st m ->
+  exists bs bd,
+    holds st (m_srcblk m) (m_srcoff m) bs /\ b_size bs = m_size m /\
+    holds st (m_dstblk m) (m_dstoff m) bd /\ b_size bd = m_size m /\
+    m_src m <> m_tmp m /\
+    (forall s e, entry st s = Some e -> u_blk e = m_srcblk m -> u_off e = m_srcoff m -> s = m_src m) /\
+    (forall s e, entry st s = Some e -> u_blk e = m_dstblk m -> u_off e = m_dstoff m -> s = m_tmp m) /\
+    (m_srcblk m = m_dstblk m ->
+     m_srcoff m + m_size m <= m_dstoff m \/ m_dstoff m + m_size m <= m_srcoff m).
+Proof. intros gh gg. exact (both_ends_reserved gh gg QT KT). Qed.
+Print Assumptions C07_both_ends_reserved_gran.
+
+Theorem C07_user_alloc_keeps_reserved_gran : forall gh gg st id size align kind tag st' r m,
+  WFg gh gg st -> user_alloc st id size align kind tag = (st', r) -> reserved st m -> reserved st' m.
+Proof. intros gh gg st id size align kind tag st' r m HW. exact (user_alloc_keeps_reserved gh gg QT KT QT_step st id size align kind tag st' r m HW I). Qed.
+Print Assumptions C07_user_alloc_keeps_reserved_gran.
+
+Theorem C07_free_keeps_reserved_gran : forall gh gg st s st' k m,
+  WFg gh gg st -> free_slot st s = (st', k) -> s <> m_src m -> s <> m_tmp m -> reserved st m -> reserved st' m.
+Proof. intros gh gg. exact (free_keeps_reserved gh gg QT KT QT_step). Qed.
+Print Assumptions C07_free_keeps_reserved_gran.
+
+Theorem C07_move_outcome_gran : forall gh gg st c p ds ord,
+  WFg gh gg st -> Forall (reserved st) (c_moves c) -> NoDup (map m_src (c_moves c) ++ map m_tmp (c_moves c)) ->
+  r_kind (complete_pass st c p ds ord) = ROk /\
+  outcomes st (r_st (complete_pass st c p ds ord)) (c_moves c) ds /\
+  (forall s, ~ In s (map m_src (c_moves c)) -> ~ In s (map m_tmp (c_moves c)) ->
+             entry (r_st (complete_pass st c p ds ord)) s = entry st s).
+Proof.
+  intros gh gg st c p ds ord HW Hres Hnd.
+  exact (conj (complete_pass_ok gh gg QT KT QT_step st c p ds ord HW Hres Hnd)
+              (move_outcome gh gg QT KT QT_step st c p ds ord HW Hres Hnd)).
+Qed.
+Print Assumptions C07_move_outcome_gran.
+
+Theorem C07_complete_pass_wf_gran : forall gh gg st c p ds ord,
+  WFg gh gg st -> Forall (reserved st) (c_moves c) -> NoDup (map m_src (c_moves c) ++ map m_tmp (c_moves c)) ->
+  WFg gh gg (r_st (complete_pass st c p ds ord)) /\
+  Permutation (map fst (d_blocks (r_st (complete_pass st c p ds ord)))) (map fst (d_blocks st)) /\
+  d_sentinel (r_st (complete_pass st c p ds ord)) = d_sentinel st /\
+  length (d_table (r_st (complete_pass st c p ds ord))) = length (d_table st) /\
+  c_moves (r_ctx (complete_pass st c p ds ord)) = [].
+Proof. intros gh gg. exact (complete_pass_wf gh gg QT KT QT_step). Qed.
+Print Assumptions C07_complete_pass_wf_gran.
+
+(* arbitrary histories of the harness protocol with refused commits (wstep_f: the operations of
+   wstep plus  CF k1 k2 ... = "the k-th commit attempts of the next pass are refused") *)
+Theorem C07_wstep_safe_gran : forall gh gg wf o,
+  WInvg gh gg (wf_w wf) -> algo_ok (wf_w wf) -> w_dead (wf_w wf) = false ->
+  let wf' := fst (fst (wstep_f wf o)) in
+  WInvg gh gg (wf_w wf') /\ algo_ok (wf_w wf') /\ w_dead (wf_w wf') = false.
+Proof.
+  intros gh gg wf o HI Ha Hd.
+  exact (wstep_f_safe gh gg QT KT QT_step wf o HI Ha (wopf_ok_KT o) Hd).
+Qed.
+Print Assumptions C07_wstep_safe_gran.
+
+Theorem C07_world_init_gran : forall gh gg sizes sentinel,
+  Bits.pow2 gg -> Forall (fun s => 1 <= s < 2 ^ 39) sizes -> WInvg gh gg (world_init_g gh gg sizes sentinel).
+Proof.
+  intros gh gg sizes sentinel Hp Hs. apply (world_init_inv gh gg QT KT sizes sentinel Hp).
+  apply Forall_forall. intros s Hin. rewrite Forall_forall in Hs. split; [exact (Hs s Hin)|exact I].
+Qed.
+Print Assumptions C07_world_init_gran.
+
+(* the page statement *)
+Theorem C07_no_conflicting_kinds_share_a_page : forall gg st id offa offb a b,
+  WFp gg st -> holds st id offa a -> holds st id offb b -> a <> b ->
+  conflict (b_kind a) (b_kind b) = true -> no_shared_page gg a b.
+Proof. exact wf_no_shared_page. Qed.
+Print Assumptions C07_no_conflicting_kinds_share_a_page.
+
+Theorem C07_history_pages : forall gg sizes sentinel fl ops,
+  Bits.pow2 gg -> 1 <= gg <= 65536 -> Forall (fun s => 1 <= s < 2 ^ 39) sizes ->
+  Forall (wopf_ok kind_ok) ops ->
+  let wf := runf (mkWf (world_init_g HVam gg sizes sentinel) fl) ops in
+  w_dead (wf_w wf) = false /\ WFp gg (w_st (wf_w wf)) /\
+  forall id offa offb a b, holds (w_st (wf_w wf)) id offa a -> holds (w_st (wf_w wf)) id offb b -> a <> b ->
+    conflict (b_kind a) (b_kind b) = true -> no_shared_page gg a b.
+Proof. exact history_pages. Qed.
+Print Assumptions C07_history_pages.
+
+(* the old invariant is the instance granularity 1; an old statement re-derived *)
+Theorem C07_wf_is_gran1 : forall gh st, DefragProofs.WF st <-> WFg gh 1 st.
+Proof. exact wf_gran1_iff. Qed.
+
+Theorem C07_move_outcome_from_gran : forall st c p ds ord,
+  DefragProofs.WF st -> Forall (DefragProofs.reserved st) (c_moves c) -> NoDup (map m_src (c_moves c) ++ map m_tmp (c_moves c)) ->
+  r_kind (complete_pass st c p ds ord) = ROk /\
+  DefragProofs.outcomes st (r_st (complete_pass st c p ds ord)) (c_moves c) ds /\
+  (forall s, ~ In s (map m_src (c_moves c)) -> ~ In s (map m_tmp (c_moves c)) ->
+             entry (r_st (complete_pass st c p ds ord)) s = entry st s).
+Proof.
+  intros st c p ds ord HW. exact (C07_move_outcome_gran HFake 1 st c p ds ord (proj1 (wf_gran1_iff HFake st) HW)).
+Qed.
+Print Assumptions C07_move_outcome_from_gran.
+
+Example C07_gran_nonvacuous :
+  WFp 1024 exg_world /\
+  map (fun o => match o with Some e => u_size e | None => 0 end) (d_table exg_world) = [100; 0; 1024; 0; 50; 1024] /\
+  match run_copy 10 exg_world (mkC 2 [] 0) max_int max_int ps_zero 0 [] with
+  | RunDone _ passes acc log => passes = 1%nat /\ ps_allocs_moved acc = 2 /\ ps_bytes_moved acc = 1074
+  | _ => False
+  end.
+Proof. split; [exact exg_world_wf|split; [exact exg_sizes_rounded|exact exg_run_done]]. Qed.
+End General.
+
 (* ---------------------------------------------------------------- whole allocator (model Vam*.v)
    EndDefragPass in the whole-allocator model (vam/defrag.go completePassForMove, allocation.go
    swapBlockAllocation): for every state satisfying the allocator invariant with a valid open pass, a successful
